@@ -39,6 +39,17 @@ def points(draw, n, box=None, min_sep=5.0, offset=None):
     return pts
 
 
+def stretch_heights(draw, net, factors=(1, 1, 3, 8)):
+    """Steep terrain.  The observed values are derived from the coordinates when the input is written (truth model: value =
+    f(coordinates) + error), so the heights may be stretched after the network was composed: slope and horizontal lengths
+    then differ markedly and zenith angles leave the neighbourhood of 100 gon."""
+    kz = draw(st.sampled_from(list(factors)))
+    if kz != 1 and net["dims"] != "2d":
+        for p in net["points"]:
+            p["H"] = round(200.0 + kz * (p["H"] - 200.0), 3)
+    return kz
+
+
 @st.composite
 def cov_for(draw, sds, allow_band=True):
     """positive definite banded covariance with the given standard deviations on the diagonal scale"""
@@ -201,7 +212,7 @@ class _Builder:
 
 @st.composite
 def determined_network(draw, noise=1, dims=None, free=False, allow_cov=True, all_axes=True,
-                       n_max=8, omit=True, heights_dh=True, isotropic=False):
+                       n_max=8, omit=True, heights_dh=True, isotropic=False, only_recipe=None, stretch=True):
     """A geometrically determined network built by recipes.
     noise: 0 exact observations, 1 errors of about one sigma.
     free: no fixed coordinates - the datum is carried by constrained points (C08)."""
@@ -244,6 +255,8 @@ def determined_network(draw, noise=1, dims=None, free=False, allow_cov=True, all
             rec_xy = draw(st.sampled_from(hz_recipes))
             if has_z and draw(st.integers(0, 3)) == 0:
                 rec_xy = "polar3d"      # total-station observations are over-represented on purpose in 3D networks
+            if only_recipe:
+                rec_xy = only_recipe    # a survey of one kind, without redundant observations of other kinds
             if rec_xy == "intersection" and len(known) < 2:
                 rec_xy = "polar"
             if rec_xy == "trilateration" and len(known) < 3:
@@ -327,7 +340,7 @@ def determined_network(draw, noise=1, dims=None, free=False, allow_cov=True, all
         p["recipe"] = [rec_xy, rec_z]
         known.append(pid)
     # redundant observations between determined points
-    nred = draw(st.integers(0, 2 * n))
+    nred = draw(st.integers(0, 2 * n)) if not only_recipe else 0
     for _ in range(nred):
         a, b = draw(st.permutations(ids))[:2]
         kinds = []
@@ -399,6 +412,8 @@ def determined_network(draw, noise=1, dims=None, free=False, allow_cov=True, all
            "points": P, "clusters": clusters, "dims": dims, "noise": noise}
     if free:
         _make_free(draw, net)
+    if stretch and stretch_heights(draw, net) != 1 and dims == "3d":
+        net["steep"] = True
     return net
 
 
@@ -461,7 +476,7 @@ def truth_jacobian(net):
                 key = ("orient", ci)
                 if key not in cols:
                     cols[key] = len(cols)
-                row[cols[key]] = v
+                row[cols[key]] = v / sd         # orientation in cc: the whole row is scaled to unit sigma
             elif (pid, c) in cols:
                 row[cols[(pid, c)]] = v * unit / sd
         rows.append(row)
@@ -480,6 +495,22 @@ def is_determined(net, tol=2e-3):
         return False
     s = np.linalg.svd(A / np.maximum(np.linalg.norm(A, axis=0), 1e-300), compute_uv=False)
     return bool(s[-1] > tol * s[0])
+
+
+def weak_geometry(net, limit_mm=1000.0):
+    """gama removes a point as 'indeterminable' when the a priori standard deviation of one of its coordinates exceeds
+    10 m (network.cpp, rm_huge_cov_*).  True when the reference a priori standard deviation of any coordinate (from the
+    truth Jacobian, correlations inside clusters ignored) exceeds limit_mm - a factor 10 below gama's limit."""
+    A, cols = truth_jacobian(net)
+    if A.shape[1] == 0:
+        return False
+    try:
+        Q = np.linalg.inv(A.T @ A)
+    except np.linalg.LinAlgError:
+        return True
+    idx = [j for k, j in cols.items() if k[0] != "orient"]
+    d = np.diag(Q)[idx]
+    return bool(np.any(~np.isfinite(d)) or np.any(d < 0) or np.sqrt(np.max(d)) > limit_mm)
 
 
 def add_mixed_points(draw, net):
